@@ -248,7 +248,9 @@ fn replay<C: Config>(cases: &str, out: &str, shard: (usize, usize), nvecs: usize
             let mut world: World<C> = World::new(nvecs);
             let _ = world.observe();
             for &pk in &chain[..chain.len() - 1] {
+                if let Some(fk) = nodes[pk].act.get("_fault").and_then(|f| f.as_i64()) { reg::set_countdown(fk); }
                 let _ = world.step(&nodes[pk].act);
+                reg::set_countdown(-1);
                 let obs = world.observe().to_string();
                 if check && fnv(&obs) != postsig[pk] { *nondet += 1; nondet_at.push((nodes[pk].id, n.id)); if std::env::var("VERIF_DEBUG").is_ok() && *nondet < 3 { eprintln!("NONDET {} {}: {}", nodes[pk].id, n.id, obs); } }
             }
@@ -257,12 +259,17 @@ fn replay<C: Config>(cases: &str, out: &str, shard: (usize, usize), nvecs: usize
         };
         let mut world = run_prefix(&postsig, &mut nondet, &mut nondet_at, true);
         let calls0 = reg::user_calls();
+        let own_fault = n.act.get("_fault").and_then(|f| f.as_i64());
+        if let Some(fk) = own_fault { reg::set_countdown(fk); }
         let (o, cbs, ovf) = world.step(&n.act);
-        let ncalls = reg::user_calls() - calls0;
+        let own_fired = own_fault.is_some() && reg::countdown() < 0;
+        reg::set_countdown(-1);
+        let ncalls = if own_fault.is_some() { 0 } else { reg::user_calls() - calls0 };
         let post = world.observe();
         postsig[k] = fnv(&post.to_string());
         if std::env::var("VERIF_DEBUG").is_ok() && n.id <= 2 { eprintln!("FIRST {}: {}", n.id, post); }
         let mut ev = event_json::<C>(n.id, &n.act, &o, &cbs, ovf, &post, &mut world);
+        if let Some(fk) = own_fault { ev["fault"] = json!(fk); ev["fired"] = json!(own_fired); }
         finish_td::<C>(&mut ev, &mut world, false);
         evs.push((ppos, ev));
         posof[k] = evs.len() + 1;
@@ -499,6 +506,9 @@ fn random_run<C: Config>(out: &str, seed: u64, steps: usize, maxlen: usize, nvec
         let fired = inject && reg::countdown() < 0;
         reg::set_countdown(-1);
         let post = world.observe();
+        // a fault that fired is part of the action (so that the replay of this history repeats it)
+        let mut act = act;
+        if fired { act["_fault"] = json!(fk); }
         let mut ev = event_json::<C>((step + 1) as i64, &act, &o, &cbs, ovf, &post, &mut world);
         if fired { ev["fault"] = json!(fk); ev["fired"] = json!(true); }
         let last = step + 1 == steps;
